@@ -95,7 +95,15 @@ def m_isinstance(interp, args, kwargs):
     from .interp import Closure, BoundMethod
     if isinstance(obj, (Closure, BoundMethod)):
         return any(t in (object, types.FunctionType) for t in tps)
+    # a model class (pyvc/pymodels) declares the library classes whose instances it stands for
+    stands_for = getattr(type(obj), '_pv_stands_for', None)
+    if stands_for and any(inspect_isclass(t) and issubclass(s, t) for t in tps for s in stands_for):
+        return True
     return isinstance(obj, tp)
+
+
+def inspect_isclass(t):
+    return isinstance(t, type)
 
 
 @model(builtins.len)
